@@ -11,6 +11,14 @@
 // analysed does not collide with the text the cached line index of the file was built from -- NOT re-established, it
 // is a hypothesis about each (state, text) pair; hash_collides_with_nothing(text) implies it).
 // The database struct lists every field except ast_cache (frames: prelude/index_dbspecs_all.rs, visit_env.rs).
+// v3: `imports` and `undeclared_fixtures` are IN the contract (prelude/analyze_imports.rs):
+//   collect_module_level_names   <- unit ast_helpers (`//@stub`: names grows by module_level_names(stmt)); the first pass
+//                                   (@loop 1) has the real invariant  names == module_names(body.take(i))
+//   success:  imports_post(old imports, new imports, f, ast): imports[f] is REPLACED by module_names(body) (removed in the
+//             cleanup block -- unconditionally, not under cleanup_previous -- then inserted), no other entry touched;
+//             undeclared_fixtures: every other file's entry untouched; f's entry is removed before the visitors run
+//             (all that visit_stmt's contract lets us say about it afterwards: nothing, unless the body is empty)
+//   failure:  both maps unchanged (as before)
 use rustpython_parser::{parse, Mode};
 use rustpython_parser::ast::{Stmt, Expr, Keyword, Identifier, Constant, ExceptHandler, ExprCall, Alias, Arguments, ArgWithDefault};
 use rustpython_parser::text_size::TextRange;
@@ -23,6 +31,9 @@ use super::*;
 //@include prelude/types.rs
 //@include prelude/dashmap.rs
 //@include prelude/hashset.rs
+// (trusted base A3, already used by units imports_closure / scan_imports) HashSet::extend: only so that an
+// `entry(..).or_default().extend(..)` rewrite of the imports write is DECIDED rather than a type error
+//@include prelude/hashset_ext.rs
 //@include prelude/atomic.rs
 //@include prelude/dbview.rs
 //@include prelude/hof.rs
@@ -49,6 +60,8 @@ use super::*;
 //@include prelude/visit_spec.rs
 //@include prelude/analyze_spec.rs
 //@include prelude/analyze_l2.rs
+//@include prelude/analyze_imports.rs
+//@include prelude/analyze_imports_l2.rs
 // vocabulary of unit memo_keys (src_line_index / parse_ok / ast_of are this unit's own uninterpreted functions)
 //@include prelude/memokeys_spec.rs
 //@include prelude/fs_canonical_decl.rs
@@ -56,6 +69,10 @@ use super::*;
 //@include prelude/memokeys_l2.rs
 } // mod pre
 use pre::*;
+
+// (A3, prelude/hashset.rs) Default of the HashSet shim is the empty set: not needed by the code as it is (imports[f] is
+// written with `insert`), only so that an `entry(..).or_default()` rewrite of that write is judged on its merits
+broadcast use axiom_default_hashset;
 
 #[verifier::external_type_specification] pub struct ExUndeclaredFixture(UndeclaredFixture);
 
@@ -90,10 +107,8 @@ impl FixtureDatabase {
     // ---- memoised getters: the contracts PROVED in unit memo_keys (cache invariant + no-collision hypothesis of the call)
 //@stub memo_keys get_canonical_path
 //@stub memo_keys get_line_index
-    // ---- callee contract ASSUMED here (no contract: its only effect is on `names`, which is stored in `imports`)
-    #[verifier::external_body]
-    fn collect_module_level_names(&self, stmt: &Stmt, names: &mut HashSet<String>)
-    { unimplemented!() }
+    // ---- the contract PROVED in unit ast_helpers: names grows by module_level_names(stmt) (prelude/ast_spec.rs)
+//@stub ast_helpers collect_module_level_names
     // A7 DISCHARGED: the contract of visit_stmt is the one PROVED in unit visit (v2: with env_ok / vframe)
 //@stub visit visit_stmt
     // eviction: the contract PROVED in unit memo (v2: all memo tables only shrink, nothing else is written)
@@ -132,6 +147,15 @@ impl FixtureDatabase {
             &&& final(self).uses() == push_uses(old(self).uses().remove(f), stmts_vuses(body, f, content@))
             &&& final(self).byfix() == push_byfix(clean_byfix(old(self).byfix(), f), stmts_vuses(body, f, content@))
         }),
+        // v3 (C06 / C17) successful parse, `imports`: the entry of f = canon(file_path) is REPLACED by the module-level
+        // names of THIS text (module_names = the first pass folded over the body; removed in the cleanup block, then
+        // inserted) whatever it held before and whatever cleanup_previous is; no other file's stored set is touched
+        parse_ok(content@) ==> imports_post(old(self).imports.m(), final(self).imports.m(), canon(pbv(&file_path)), ast_of(content@)),
+        // v3 successful parse, `undeclared_fixtures`: every other file's findings are untouched; f's list is dropped
+        // before the visitors run -- what they leave under f is NOT described by visit_stmt's contract (undecl_frame),
+        // so the reset is visible here only when no visitor runs (no top-level statement)
+        parse_ok(content@) ==> final(self).undeclared_fixtures.m().remove(canon(pbv(&file_path))) == old(self).undeclared_fixtures.m().remove(canon(pbv(&file_path))),
+        parse_ok(content@) && body_of(ast_of(content@)).len() == 0 ==> !final(self).undeclared_fixtures.m().contains_key(canon(pbv(&file_path))),
 @start
     let ghost f0 = canon(pbv(&file_path));
 @after file_path 3
@@ -153,15 +177,49 @@ impl FixtureDatabase {
         assert(u0 =~~= old(self).uses().remove(f));
         assert(b0 == clean_byfix(old(self).byfix(), f));
     }
+    // v3: state of imports / undeclared_fixtures after the cleanup block (f's entries dropped, unconditionally)
+    let ghost im0 = self.imports.m();
+    let ghost un0 = self.undeclared_fixtures.m();
+    proof {
+        assert(im0.remove(f) =~= old(self).imports.m().remove(f));
+        assert(un0.remove(f) =~= old(self).undeclared_fixtures.m().remove(f));
+    }
 @before for 1
     let ghost body = module.body@;
-    proof { assert(body == body_of(ast_of(content@))); assert(f == f0); }
+    proof {
+        assert(body == body_of(ast_of(content@))); assert(f == f0);
+        assert(is_module(ast_of(content@)));
+        assert(body.take(0) =~= Seq::<Stmt>::empty());
+        // get_line_index wrote line_index_cache only
+        assert(self.imports.m() == im0 && self.undeclared_fixtures.m() == un0);
+    }
 @loopvar 1 it0
 @loop 1
-    invariant self.definitions == old(self).definitions || true,
+    invariant body == module.body@, it0.seq() == body.as_ref(),
+        // the first pass IS the fold module_names over the statements seen so far
+        module_level_names.s() == module_names(body.take(it0.index@ as int)),
+@loopstart 1
+    proof { let i = it0.index@ as int; assert(body[i] == *stmt); lemma_module_names_step(body, i); }
+@after for 1
+    let ghost names1 = module_level_names;
+    proof { assert(body.take(body.len() as int) =~= body); assert(names1.s() == module_names(body)); }
+@before for 2
+    // state after the write of imports[f]
+    let ghost im1 = self.imports.m();
+    proof {
+        assert(im1.contains_key(f) && im1[f].s() == module_names(body));
+        assert(im1.remove(f) =~= old(self).imports.m().remove(f));
+        assert(imports_view(im1) =~= imports_view(old(self).imports.m()).insert(f, module_names(body)));
+        assert(imports_post(old(self).imports.m(), im1, f, ast_of(content@)));
+    }
 @loopvar 2 it
 @loop 2
     invariant
+        // C17: EVERY visitor call of the second pass (hence every undeclared-fixture scan) runs on a database whose
+        // imports[f] already holds the module-level names of THIS text (stored before the second pass, framed by visit_stmt)
+        self.imports.m() == im1, imports_entry(self.imports.m(), f) == module_names(body),
+        self.undeclared_fixtures.m().remove(f) == old(self).undeclared_fixtures.m().remove(f),
+        it.index@ == 0 ==> self.undeclared_fixtures.m() == un0,
         self.env_ok(), li_cache_wf(self.line_index_cache.m()), canon_cache_wf(self.canonical_path_cache.m()),
         f == pbv(&file_path), body == module.body@, it.seq() == body.as_ref(),
         (*line_index)@ == src_line_index(content@), is_line_index(ints((*line_index)@)), module_pre(body, (*line_index)@),
@@ -192,7 +250,15 @@ impl FixtureDatabase {
     proof { assert(body.take(body.len() as int) =~= body); }
 @before evict_cache_if_needed 1
     let ghost lm0 = self.line_index_cache.m();
-    proof { assert(li_cache_wf(lm0)); }
+    proof {
+        assert(li_cache_wf(lm0));
+        // v3: the parser handed back no Mod::Module: nothing was stored, f's entries stay removed (body_of == empty)
+        if !is_module(ast_of(content@)) {
+            assert(self.imports.m() == im0 && self.undeclared_fixtures.m() == un0);
+            lemma_imports_view_remove(old(self).imports.m(), f);
+            assert(imports_view(im0) =~= imports_view(old(self).imports.m()).remove(f));
+        }
+    }
 @after evict_cache_if_needed 1
     proof {
         // the invariant survives removal of entries (memo_v2: line_index_cache only shrinks)
@@ -232,6 +298,15 @@ impl FixtureDatabase {
             &&& final(self).uses() == push_uses(old(self).uses().remove(f), stmts_vuses(body, f, content@))
             &&& final(self).byfix() == push_byfix(clean_byfix(old(self).byfix(), f), stmts_vuses(body, f, content@))
         }),
+        // v3 (C06 / C17) successful parse, `imports`: the entry of f = canon(file_path) is REPLACED by the module-level
+        // names of THIS text (module_names = the first pass folded over the body; removed in the cleanup block, then
+        // inserted) whatever it held before and whatever cleanup_previous is; no other file's stored set is touched
+        parse_ok(content@) ==> imports_post(old(self).imports.m(), final(self).imports.m(), canon(pbv(&file_path)), ast_of(content@)),
+        // v3 successful parse, `undeclared_fixtures`: every other file's findings are untouched; f's list is dropped
+        // before the visitors run -- what they leave under f is NOT described by visit_stmt's contract (undecl_frame),
+        // so the reset is visible here only when no visitor runs (no top-level statement)
+        parse_ok(content@) ==> final(self).undeclared_fixtures.m().remove(canon(pbv(&file_path))) == old(self).undeclared_fixtures.m().remove(canon(pbv(&file_path))),
+        parse_ok(content@) && body_of(ast_of(content@)).len() == 0 ==> !final(self).undeclared_fixtures.m().contains_key(canon(pbv(&file_path))),
 @*/
 
 /*@ extract src/fixtures/analyzer.rs analyze_file_fresh
@@ -263,6 +338,80 @@ impl FixtureDatabase {
             &&& final(self).uses() == push_uses(old(self).uses().remove(f), stmts_vuses(body, f, content@))
             &&& final(self).byfix() == push_byfix(clean_byfix(old(self).byfix(), f), stmts_vuses(body, f, content@))
         }),
+        // v3 (C06 / C17) successful parse, `imports`: the entry of f = canon(file_path) is REPLACED by the module-level
+        // names of THIS text (module_names = the first pass folded over the body; removed in the cleanup block, then
+        // inserted) whatever it held before and whatever cleanup_previous is; no other file's stored set is touched
+        parse_ok(content@) ==> imports_post(old(self).imports.m(), final(self).imports.m(), canon(pbv(&file_path)), ast_of(content@)),
+        // v3 successful parse, `undeclared_fixtures`: every other file's findings are untouched; f's list is dropped
+        // before the visitors run -- what they leave under f is NOT described by visit_stmt's contract (undecl_frame),
+        // so the reset is visible here only when no visitor runs (no top-level statement)
+        parse_ok(content@) ==> final(self).undeclared_fixtures.m().remove(canon(pbv(&file_path))) == old(self).undeclared_fixtures.m().remove(canon(pbv(&file_path))),
+        parse_ok(content@) && body_of(ast_of(content@)).len() == 0 ==> !final(self).undeclared_fixtures.m().contains_key(canon(pbv(&file_path))),
+@*/
+
+// exec canary (must FAIL): the real analyze_file against 'imports[f] ACCUMULATES over the versions analysed (union)'
+/*@ extract src/fixtures/analyzer.rs analyze_file
+@tags C06 C17
+@as canary_analyze_file_imports_accumulate
+@recv mut
+@sig
+    requires old(self).version() < u64::MAX,
+        old(self).env_ok(), li_cache_wf(old(self).line_index_cache.m()), canon_cache_wf(old(self).canonical_path_cache.m()),
+        li_no_collision(old(self).line_index_cache.m(), canon(pbv(&file_path)), content@),
+        parse_ok(content@) ==> old(self).version() + 1 + stmts_vdefs(body_of(ast_of(content@)), canon(pbv(&file_path)), content@).len() <= u64::MAX,
+    ensures parse_ok(content@) && is_module(ast_of(content@)) ==> imports_entry(old(self).imports.m(), canon(pbv(&file_path))).subset_of(imports_entry(final(self).imports.m(), canon(pbv(&file_path)))),
+@*/
+
+// exec canary (must FAIL): the same for the scan entry point: cleanup_previous = false does NOT keep the old names either
+/*@ extract src/fixtures/analyzer.rs analyze_file_fresh
+@tags C06 C17
+@as canary_analyze_file_fresh_imports_accumulate
+@recv mut
+@sig
+    requires old(self).version() < u64::MAX,
+        old(self).env_ok(), li_cache_wf(old(self).line_index_cache.m()), canon_cache_wf(old(self).canonical_path_cache.m()),
+        li_no_collision(old(self).line_index_cache.m(), canon(pbv(&file_path)), content@),
+        parse_ok(content@) ==> old(self).version() + 1 + stmts_vdefs(body_of(ast_of(content@)), canon(pbv(&file_path)), content@).len() <= u64::MAX,
+    ensures parse_ok(content@) && is_module(ast_of(content@)) ==> imports_entry(old(self).imports.m(), canon(pbv(&file_path))).subset_of(imports_entry(final(self).imports.m(), canon(pbv(&file_path)))),
+@*/
+
+// exec canary (must FAIL): 'a successful analysis of f changes the imports entry of another file'
+/*@ extract src/fixtures/analyzer.rs analyze_file
+@tags C06 C17
+@as canary_analyze_file_other_imports_change
+@recv mut
+@sig
+    requires old(self).version() < u64::MAX,
+        old(self).env_ok(), li_cache_wf(old(self).line_index_cache.m()), canon_cache_wf(old(self).canonical_path_cache.m()),
+        li_no_collision(old(self).line_index_cache.m(), canon(pbv(&file_path)), content@),
+        parse_ok(content@) ==> old(self).version() + 1 + stmts_vdefs(body_of(ast_of(content@)), canon(pbv(&file_path)), content@).len() <= u64::MAX,
+    ensures parse_ok(content@) ==> final(self).imports.m().remove(canon(pbv(&file_path))) != old(self).imports.m().remove(canon(pbv(&file_path))),
+@*/
+
+// exec canary (must FAIL): 'a parse failure drops the file's imports entry'
+/*@ extract src/fixtures/analyzer.rs analyze_file
+@tags C06 C17
+@as canary_analyze_file_parse_failure_resets_imports
+@recv mut
+@sig
+    requires old(self).version() < u64::MAX,
+        old(self).env_ok(), li_cache_wf(old(self).line_index_cache.m()), canon_cache_wf(old(self).canonical_path_cache.m()),
+        li_no_collision(old(self).line_index_cache.m(), canon(pbv(&file_path)), content@),
+        parse_ok(content@) ==> old(self).version() + 1 + stmts_vdefs(body_of(ast_of(content@)), canon(pbv(&file_path)), content@).len() <= u64::MAX,
+    ensures !parse_ok(content@) ==> !final(self).imports.m().contains_key(canon(pbv(&file_path))),
+@*/
+
+// exec canary (must FAIL): 'the findings f had before are still there after analysing a text without statements' (the reset negated)
+/*@ extract src/fixtures/analyzer.rs analyze_file
+@tags C06 C17
+@as canary_analyze_file_keeps_old_undeclared
+@recv mut
+@sig
+    requires old(self).version() < u64::MAX,
+        old(self).env_ok(), li_cache_wf(old(self).line_index_cache.m()), canon_cache_wf(old(self).canonical_path_cache.m()),
+        li_no_collision(old(self).line_index_cache.m(), canon(pbv(&file_path)), content@),
+        parse_ok(content@) ==> old(self).version() + 1 + stmts_vdefs(body_of(ast_of(content@)), canon(pbv(&file_path)), content@).len() <= u64::MAX,
+    ensures parse_ok(content@) && body_of(ast_of(content@)).len() == 0 ==> final(self).undeclared_fixtures.m().contains_key(canon(pbv(&file_path))) == old(self).undeclared_fixtures.m().contains_key(canon(pbv(&file_path))),
 @*/
 
 /*@ extract src/fixtures/analyzer.rs analyze_file_internal
